@@ -13,22 +13,54 @@ EMITTERS = [("wrapc.py", "Wrapc", 0), ("wrapf.py", "Wrapf", 1), ("wrapp.py", "Wr
 OPTS = {"C_line_length": 0, "F_line_length": 1}
 
 
+def _linelen_expr(v, cont):
+    """`self.linelen = <expr>`: (option code, addend) for `options.X`, `options.X + k`, `options.X - k`, `k + options.X`,
+    where k is an integer constant or `len(self.cont)`; anything else is (9, 0)"""
+    def konst(n):
+        if isinstance(n, ast.Constant) and isinstance(n.value, int) and not isinstance(n.value, bool):
+            return n.value
+        if isinstance(n, ast.Call) and isinstance(n.func, ast.Name) and n.func.id == "len" and len(n.args) == 1 \
+                and ast.unparse(n.args[0]) == "self.cont" and cont is not None:
+            return len(cont)
+        return None
+    if isinstance(v, ast.Attribute):
+        return OPTS.get(v.attr, 9), 0
+    if isinstance(v, ast.BinOp) and isinstance(v.op, (ast.Add, ast.Sub)):
+        sign = 1 if isinstance(v.op, ast.Add) else -1
+        if isinstance(v.left, ast.Attribute) and konst(v.right) is not None and v.left.attr in OPTS:
+            return OPTS[v.left.attr], sign * konst(v.right)
+        if sign == 1 and isinstance(v.right, ast.Attribute) and konst(v.left) is not None and v.right.attr in OPTS:
+            return OPTS[v.right.attr], konst(v.left)
+    return 9, 0
+
+
 def scan():
+    """(emitter, option feeding self.linelen, addend, continuation marker).  Every assignment to self.linelen / self.cont
+    anywhere in the emitter class counts; two different assignments to self.linelen give option 9 (not a function of one option)."""
     rows = []
     for fn, cls, code in EMITTERS:
         tree = ast.parse(open(os.path.join(common.REPO, "shroud", fn)).read())
-        opt, cont = 9, None
+        exprs, cont = [], None
         for c in ast.walk(tree):
             if isinstance(c, ast.ClassDef) and c.name == cls:
                 for n in ast.walk(c):
-                    if isinstance(n, ast.Assign) and len(n.targets) == 1 and isinstance(n.targets[0], ast.Attribute) \
-                            and isinstance(n.targets[0].value, ast.Name) and n.targets[0].value.id == "self":
-                        if n.targets[0].attr == "linelen":
-                            v = n.value
-                            opt = OPTS.get(v.attr, 9) if isinstance(v, ast.Attribute) else 9
-                        if n.targets[0].attr == "cont" and isinstance(n.value, ast.Constant):
-                            cont = n.value.value
-        rows.append((code, opt, [ord(ch) for ch in (cont if cont is not None else "?")]))
+                    tg = []
+                    if isinstance(n, ast.Assign):
+                        tg = n.targets
+                    elif isinstance(n, ast.AugAssign):
+                        tg = [n.target]
+                    for t in tg:
+                        if isinstance(t, ast.Attribute) and isinstance(t.value, ast.Name) and t.value.id == "self":
+                            if t.attr == "linelen":
+                                exprs.append(n.value if isinstance(n, ast.Assign) else None)
+                            if t.attr == "cont":
+                                cont = n.value.value if isinstance(n, ast.Assign) and isinstance(n.value, ast.Constant) \
+                                    and isinstance(n.value.value, str) and cont is None else "?"
+        if len(exprs) == 1 and exprs[0] is not None:
+            opt, add = _linelen_expr(exprs[0], cont)
+        else:
+            opt, add = 9, 0
+        rows.append((code, opt, add, [ord(ch) for ch in (cont if cont is not None else "?")]))
     return rows
 
 
@@ -165,10 +197,10 @@ def regenerate():
     br = scan_splicer_branches()
     L = ["/- GENERATED by tools/extract_linecfg.py from the /repo working tree.  Do not edit. -/",
          "namespace Shroud.Gen.LineCfg", "",
-         "/-- (emitter, option feeding self.linelen, continuation marker code points);",
+         "/-- (emitter, option feeding self.linelen, addend to the option's value, continuation marker code points);",
          "    emitter 0 Wrapc 1 Wrapf 2 Wrapp 3 Wrapl; option 0 C_line_length 1 F_line_length 9 other -/",
-         "def emitterLineCfg : List (Nat × Nat × List Nat) := ["]
-    L.append(",\n".join("  (%d, %d, [%s])" % (c, o, ", ".join(map(str, cont))) for c, o, cont in rows))
+         "def emitterLineCfg : List (Nat × Nat × Int × List Nat) := ["]
+    L.append(",\n".join("  (%d, %d, %d, [%s])" % (c, o, a, ", ".join(map(str, cont))) for c, o, a, cont in rows))
     L += ["]", "", "/-- defaults of C_line_length and F_line_length -/",
           "def lineLengthDefaults : Nat × Nat := (%d, %d)" % (d[0], d[1]), "",
           "/-- branches of util._create_splicer: (source of the lines, passed through _literal_lines) -/",
